@@ -600,6 +600,172 @@ func (m *M) check(b, route string, a Args, pre *snapshot, r *world.Result) {
 		}
 	}
 
+	// ---------------- C13: changes of 2FA settings -------------------------------------------
+	if r.Panic == "" && !r.Injected {
+		_, half := pre.sess["halfauth"]
+		for pid, u0 := range pre.users {
+			u1 := m.W.Store.Users[pid]
+			if u1 == nil {
+				continue
+			}
+			totpChg := u1.TOTPSecretKey != u0.TOTPSecretKey
+			smsChg := u1.SMSPhoneNumber != u0.SMSPhoneNumber
+			recChg := u1.RecoveryCodes != u0.RecoveryCodes
+			if !totpChg && !smsChg && !recChg {
+				continue
+			}
+			owner := oldU == pid && !half
+			emailOK := !cfg.EmailAuth || pre.sess["twofactor_authed"] == "true"
+			why := ""
+			switch route {
+			case "totpconfirm":
+				sec := pre.sess["totp_secret"]
+				switch {
+				case !owner:
+					why = "not the fully authenticated owner"
+				case !emailOK:
+					why = "e-mail authorisation missing"
+				case sec == "" || !totp.Validate(a.Code, sec):
+					why = "no valid code for the secret being enrolled"
+				case totpChg && u1.TOTPSecretKey != sec:
+					why = "stored secret is not the one the code proved"
+				case smsChg:
+					why = "changed the SMS number"
+				}
+			case "smsconfirm":
+				num := pre.sess["sms_number"]
+				sentTo := ""
+				for i := len(m.W.SMSs) - 1; i >= 0; i-- {
+					if m.W.SMSs[i].Code == a.Code {
+						sentTo = m.W.SMSs[i].Number
+						break
+					}
+				}
+				switch {
+				case !owner:
+					why = "not the fully authenticated owner"
+				case !emailOK:
+					why = "e-mail authorisation missing"
+				case a.Code == "" || a.Code != pre.sess["sms_secret"]:
+					why = "no valid code"
+				case smsChg && u1.SMSPhoneNumber != num:
+					why = "stored number is not the one in the session"
+				case sentTo != num:
+					why = "F9:the code was sent to " + sentTo + ", not to the number being enrolled " + num
+				case totpChg:
+					why = "changed the TOTP secret"
+				}
+			case "totpremove", "smsremove":
+				valid := false
+				if a.RCode != "" {
+					valid = recCodeValid(u0, a.RCode)
+				} else if route == "totpremove" {
+					valid = u0.TOTPSecretKey != "" && totp.Validate(a.Code, u0.TOTPSecretKey)
+				} else {
+					valid = a.Code != "" && a.Code == pre.sess["sms_secret"]
+				}
+				if !owner {
+					why = "not the fully authenticated owner"
+				} else if !valid {
+					why = "no current code or unused recovery code"
+				}
+			case "regen":
+				if !owner {
+					why = "not the fully authenticated owner"
+				} else if totpChg || smsChg {
+					why = "regenerate changed more than the recovery codes"
+				}
+			case "totpvalidate", "smsvalidate":
+				// only the consumption of one valid recovery code
+				if totpChg || smsChg || a.RCode == "" || !recCodeValid(u0, a.RCode) {
+					why = "a login step changed 2FA settings other than consuming a valid recovery code"
+				}
+			default:
+				why = "route " + route + " is not a 2FA settings route"
+			}
+			if why != "" {
+				site := "settings:" + route
+				if strings.HasPrefix(why, "F9:") {
+					site = "sms-enrol-unbound"
+				}
+				m.violate("C13", site, fmt.Sprintf("2FA settings of %q changed by a %s request: %s", pid, route, why), b)
+			}
+		}
+		// e-mail authorisation mark
+		if post.Sess["twofactor_authed"] == "true" && pre.sess["twofactor_authed"] != "true" {
+			tok := pre.sess["twofactor_auth_token"]
+			if route != "vend" || tok == "" || a.Token != tok || m.Secrets[tok] != "mailtoken:verify" {
+				m.violate("C13", "email-mark", "the e-mail authorisation mark was set without presenting the token mailed for this session", b)
+			}
+		}
+		if (route == "totpconfirm" || route == "smsconfirm") && cfg.EmailAuth && pre.sess["twofactor_authed"] == "true" && post.Sess["twofactor_authed"] == "true" {
+			if u0, u1 := pu(oldU), m.W.Store.Users[oldU]; u0 != nil && u1 != nil && (u0.TOTPSecretKey != u1.TOTPSecretKey || u0.SMSPhoneNumber != u1.SMSPhoneNumber) {
+				m.violate("C13", "email-mark-not-spent", "a completed enrolment did not spend the e-mail authorisation", b)
+			}
+		}
+	}
+
+	// ---------------- C17: no secret in storage or logs ------------------------------------------
+	if len(m.Secrets) > 0 {
+		for _, l := range r.LogLines {
+			for sec, kind := range m.Secrets {
+				if len(sec) >= 6 && strings.Contains(l, sec) {
+					m.violate("C17", "log:"+kind, fmt.Sprintf("a log line contains a %s in the clear", kind), b)
+				}
+			}
+		}
+		for pid, u := range m.W.Store.Users {
+			if p0 := pre.users[pid]; p0 != nil && p0.Password == u.Password && p0.ConfirmSelector == u.ConfirmSelector && p0.RecoverSelector == u.RecoverSelector &&
+				p0.OTPs == u.OTPs && p0.RecoveryCodes == u.RecoveryCodes && len(u.Arbitrary) == len(p0.Arbitrary) {
+				continue // unchanged since the last scan
+			}
+			fields := []string{u.Password, u.ConfirmSelector, u.ConfirmVerifier, u.RecoverSelector, u.RecoverVerifier, u.OTPs, u.RecoveryCodes}
+			for _, v := range u.Arbitrary {
+				fields = append(fields, v)
+			}
+			for sec, kind := range m.Secrets {
+				if kind == "sms-code" || len(sec) < 6 {
+					continue
+				}
+				for _, f := range fields {
+					if strings.Contains(f, sec) {
+						m.violate("C17", "store:"+kind, fmt.Sprintf("storage holds a %s of %q in recoverable form", kind, pid), b)
+					}
+				}
+			}
+		}
+		for tpid, toks := range m.W.Store.Tokens {
+			for _, t := range toks {
+				for sec, kind := range m.Secrets {
+					if kind == "remember-cookie" && strings.Contains(t, sec) {
+						m.violate("C17", "store:remember", fmt.Sprintf("a remember cookie value of %q is stored unhashed", tpid), b)
+					}
+				}
+			}
+		}
+		for _, ml := range r.NewMail {
+			if ml.Token == "" {
+				continue
+			}
+			for _, to := range ml.To {
+				okTo := false
+				for _, u := range m.W.Store.Users {
+					if u.Email == to {
+						okTo = true
+					}
+					for _, sec := range u.Secondary {
+						if sec == to {
+							okTo = true
+						}
+					}
+				}
+				if !okTo {
+					m.violate("C17", "mail-recipient", fmt.Sprintf("a mailed token went to %q, which is no account's address", to), b)
+				}
+			}
+		}
+	}
+
 	// ---------------- C03: lock / confirm middlewares ----------------------------------
 	if (route == "lockmw" || route == "confirmmw" || route == "rootmw") && r.Probe != nil && r.Probe.Ran {
 		if u := pu(r.Probe.PID); u != nil {
